@@ -114,8 +114,8 @@ func (in *Interp) jsonNodeOf(fr *frame, b Slice) (*jnode, Value) {
 			ts := make([]*Term, n-2)
 			for i := range ts {
 				ts[i] = b.A[i+1].(*Term)
-				in.jsonSafeChar(fr, ts[i])
 			}
+			in.jsonSafeStr(fr, b.A[1:n-1])
 			s := Str{B: ts}
 			if len(ts) == 0 {
 				s = Str{}
@@ -124,6 +124,25 @@ func (in *Interp) jsonNodeOf(fr *frame, b Slice) (*jnode, Value) {
 		}
 	}
 	panic(engineAbort{"json: symbolic JSON text is not modelled"})
+}
+
+// jsonSafeStr checks with a single query that no character of s needs JSON escaping.
+func (in *Interp) jsonSafeStr(fr *frame, cells []Value) {
+	tb := in.tb
+	bad := tb.False
+	for _, v := range cells {
+		c := v.(*Term)
+		if c.IsConst() {
+			if c.C == '"' || c.C == '\\' || c.C < 0x20 || c.C >= 0x7f {
+				panic(engineAbort{"json: string needs escaping (not modelled)"})
+			}
+			continue
+		}
+		bad = tb.Or(bad, tb.Or(tb.Or(tb.Eq(c, tb.BVConst(8, '"')), tb.Eq(c, tb.BVConst(8, '\\'))), tb.Or(tb.Cmp(OUlt, c, tb.BVConst(8, 0x20)), tb.Cmp(OUle, tb.BVConst(8, 0x7f), c))))
+	}
+	if in.decide(fr, nil, bad) {
+		panic(engineAbort{"json: string may need escaping (not modelled)"})
+	}
 }
 
 func (in *Interp) jsonSafeChar(fr *frame, c *Term) {
@@ -222,9 +241,7 @@ func (in *Interp) jsonEncode(fr *frame, v Value, t types.Type, depth int) (*jnod
 				return &jnode{kind: 's', str: s}, nil
 			}
 			if s.B58 == nil {
-				for _, c := range in.strBytes(s) {
-					in.jsonSafeChar(fr, c.(*Term))
-				}
+				in.jsonSafeStr(fr, in.strBytes(s))
 			}
 			return &jnode{kind: 's', str: s}, nil
 		case u.Info()&types.IsBoolean != 0:
